@@ -78,6 +78,13 @@ func (w *World) verifyFunc(fn *ssa.Function, fc *FuncContract, mode string, extr
 		v := c.freshVal("in_"+names[i], T)
 		args = append(args, v)
 		vars[names[i]] = v
+		if mode == "sweep" && i == 0 && fn.Signature.Recv() != nil && len(v.L) == 1 {
+			if _, isPtr := T.Underlying().(*types.Pointer); isPtr {
+				// safety sweep without a contract: methods are swept for calls on a non-nil receiver
+				c.assume("true", tNot(tEq(v.L[0], "null")))
+				res.EntryAsm = append(res.EntryAsm, fnKey(fn)+" (sweep) receiver != nil")
+			}
+		}
 		for k, l := range c.leaves(T) {
 			c.inputs = append(c.inputs, InputSym{Name: names[i] + l.Path, Term: v.L[k], Sort: l.Sort})
 			if l.Sort == SRef {
